@@ -4,7 +4,7 @@ use crate::builtins::core::zoneddatetime::interpret_isodatetime_offset;
 use crate::builtins::core::{calendar::Calendar, timezone::TimeZone, PlainDate, ZonedDateTime};
 use crate::iso::{IsoDate, IsoTime};
 use crate::options::{ArithmeticOverflow, Disambiguation, OffsetDisambiguation};
-use crate::parsers::parse_date_time;
+use crate::parsers::{parse_date_time, parse_zoned_date_time};
 use crate::provider::TimeZoneProvider;
 use crate::{TemporalResult, TemporalUnwrap};
 
@@ -40,7 +40,12 @@ impl RelativeTo {
         source: &str,
         provider: &impl TimeZoneProvider,
     ) -> TemporalResult<Self> {
-        let result = parse_date_time(source)?;
+        // A zoned relativeTo string (one with a time zone annotation) may carry the UTC
+        // designator, e.g. `2020-01-01T00:00Z[UTC]`; only a plain date(-time) string may not.
+        let result = match parse_zoned_date_time(source) {
+            Ok(record) => record,
+            Err(_) => parse_date_time(source)?,
+        };
 
         let Some(annotation) = result.tz else {
             let date_record = result.date.temporal_unwrap()?;
